@@ -23,6 +23,7 @@ type Job struct {
 	Replay  bool     `json:"replay,omitempty"` // pure replay: an exhausted tape yields 0
 	Trace   bool     `json:"trace,omitempty"`  // return decoded schedule, ops, log
 	Variant string   `json:"variant,omitempty"`
+	Fork    []ForkStep `json:"fork,omitempty"`
 }
 
 // Result is what a worker reports for one job.
@@ -128,6 +129,8 @@ func runJob(t *testing.T, job *Job) (res *Result) {
 	}
 	tape.trace = job.Trace
 	r := newRun(&p.Profile, tape, scratch())
+	r.forkPath = job.Fork
+	curT = t
 	func() {
 		defer func() {
 			if pv := recover(); pv != nil {
@@ -154,6 +157,7 @@ func runJob(t *testing.T, job *Job) (res *Result) {
 	res.Knobs = r.k
 	if r.p.PostRun != nil && r.viol == nil && res.Harness == "" && !r.budgetStop {
 		r.p.PostRun(r, res)
+		res.Stats.Images = r.stats.Images + res.Stats.Images
 	}
 	if res.Violation != nil || job.Trace {
 		res.Tape = tape.Used()
